@@ -369,32 +369,26 @@ Proof.
 Qed.
 
 Lemma sq_restr_terms_spec rs t :
-  wf_user (t_user t) = true -> no_bare rs = true ->
-  existsb (fun p => p t) (sq_restr_terms rs) = existsb (fun r => restr_ok r t) rs /\
-  null (sq_restr_terms rs) = null rs.
+  wf_user (t_user t) = true ->
+  existsb (fun p => p t) (sq_restr_terms rs) = existsb (fun r => restr_ok r t) rs.
 Proof.
-  intro Hwf. induction rs as [|r rs IH]; simpl; intro H; [auto|].
-  apply andb_true_iff in H as [H1 H2]. destruct (IH H2) as [IH1 _].
-  destruct r as [ty rel|ty|ty]; simpl; try discriminate; rewrite IH1; split; try reflexivity.
-  - unfold sq_eq. reflexivity.
-  - f_equal. unfold sq_eq, is_wildcard_user. f_equal. unfold wf_user in Hwf.
-    destruct (beqb (u_id (t_user t)) star); simpl in *; [|reflexivity]. rewrite Hwf. reflexivity.
+  intro Hwf. induction rs as [|r rs IH]; simpl; [reflexivity|].
+  destruct r as [ty rel|ty|ty]; simpl; rewrite IH; try reflexivity.
+  f_equal. unfold sq_eq, is_wildcard_user. f_equal. unfold wf_user in Hwf.
+  destruct (beqb (u_id (t_user t)) star); simpl in *; [|reflexivity]. rewrite Hwf. reflexivity.
 Qed.
 
 Lemma sql_read_userset_tuples_eq_spec s f :
-  wf_store s = true -> wf_usersets_filter f = true ->
+  wf_store s = true -> wf_ofilter (uf_obj f) = true ->
   sql_read_userset_tuples s f = read_userset_tuples_spec s f.
 Proof.
-  intros Hs Hf. unfold sql_read_userset_tuples, read_userset_tuples_spec. f_equal.
+  intros Hs Ho. unfold sql_read_userset_tuples, read_userset_tuples_spec. f_equal.
   apply filter_ext_in. intros t Hin.
   unfold wf_store in Hs. rewrite forallb_forall in Hs. specialize (Hs t Hin).
-  unfold wf_usersets_filter in Hf. apply andb_true_iff in Hf as [Ho Hnb].
   unfold sql_usersets_where, usersets_pred, row_user_type_is_userset.
   rewrite (sq_obj_spec _ _ Ho).
-  destruct (sq_restr_terms_spec _ _ Hs Hnb) as [H1 H2].
-  unfold sq_or. rewrite H1, H2.
-  unfold sq_opt_eq, rel_ok, sq_conds, conds_ok, bmem.
-  destruct (null (uf_restr f)); reflexivity.
+  unfold sq_or. rewrite (sq_restr_terms_spec _ _ Hs).
+  unfold sq_opt_eq, rel_ok, sq_conds, conds_ok, bmem. reflexivity.
 Qed.
 
 Lemma memory_eq_sql_read_userset_tuples s f :
@@ -403,8 +397,8 @@ Lemma memory_eq_sql_read_userset_tuples s f :
   flag_usersets_duplicate_restrictions s f = false ->
   Permutation (memory_read_userset_tuples s f) (sql_read_userset_tuples s f).
 Proof.
-  intros Hs Hf Hc Hd. pose proof Hf as Hf'. unfold wf_usersets_filter in Hf'.
-  apply andb_true_iff in Hf' as [_ Hnb].
+  intros Hs Hf Hc Hd. unfold wf_usersets_filter in Hf.
+  apply andb_true_iff in Hf as [Ho Hnb].
   rewrite memory_read_userset_tuples_eq_spec_partial, sql_read_userset_tuples_eq_spec by assumption.
   apply Permutation_refl.
 Qed.
@@ -490,7 +484,7 @@ Proof.
 Qed.
 
 Lemma memory_rswu_eq_spec_refuted :
-  exists s f, wf_store s = true /\ keys_unique s = true /\ wf_rswu_filter f = true /\
+  exists s f, wf_store s = true /\ keys_unique s = true /\
               ~ Permutation (memory_rswu s f) (rswu_spec s f).
 Proof.
   exists w_store, (mkSF b_doc b_viewer [mkUser b_user b_a []; mkUser b_user b_a []] None []).
@@ -512,14 +506,12 @@ Proof.
 Qed.
 
 Lemma sql_rswu_eq_spec_partial s f :
-  wf_rswu_filter f = true ->
   flag_rswu_relationless_user s f = false -> flag_rswu_empty_object_ids f = false ->
   sql_rswu s f = rswu_spec s f.
 Proof.
-  intros Hwf Hr He. unfold sql_rswu, rswu_spec. f_equal. apply filter_ext_in. intros t Hin.
+  intros Hr He. unfold sql_rswu, rswu_spec. f_equal. apply filter_ext_in. intros t Hin.
   unfold sql_rswu_where, rswu_pred, sq_eq.
-  unfold wf_rswu_filter in Hwf. apply negb_true_iff in Hwf.
-  unfold sq_or. rewrite null_map, Hwf, existsb_map_fun. simpl.
+  unfold sq_or. rewrite existsb_map_fun.
   unfold flag_rswu_relationless_user in Hr. rewrite (sq_rswu_user_spec _ _ _ Hr Hin).
   assert (Ho : sq_rswu_oids (sf_oids f) t = oids_ok (sf_oids f) t).
   { unfold flag_rswu_empty_object_ids in He. unfold sq_rswu_oids, oids_ok, bmem.
@@ -532,7 +524,7 @@ Proof.
 Qed.
 
 Lemma sql_rswu_eq_spec_refuted_relationless :
-  exists s f, wf_store s = true /\ keys_unique s = true /\ wf_rswu_filter f = true /\
+  exists s f, wf_store s = true /\ keys_unique s = true /\
               flag_rswu_empty_object_ids f = false /\
               ~ Permutation (sql_rswu s f) (rswu_spec s f).
 Proof.
@@ -542,7 +534,7 @@ Proof.
 Qed.
 
 Lemma sql_rswu_eq_spec_refuted_empty_object_ids :
-  exists s f, wf_store s = true /\ keys_unique s = true /\ wf_rswu_filter f = true /\
+  exists s f, wf_store s = true /\ keys_unique s = true /\
               flag_rswu_relationless_user s f = false /\
               ~ Permutation (sql_rswu s f) (rswu_spec s f).
 Proof.
@@ -552,12 +544,11 @@ Proof.
 Qed.
 
 Lemma memory_eq_sql_rswu s f :
-  wf_rswu_filter f = true ->
   flag_rswu_duplicate_user_filter f = false ->
   flag_rswu_relationless_user s f = false -> flag_rswu_empty_object_ids f = false ->
   Permutation (memory_rswu s f) (sql_rswu s f).
 Proof.
-  intros Hwf Hd Hr He. rewrite sql_rswu_eq_spec_partial by assumption.
+  intros Hd Hr He. rewrite sql_rswu_eq_spec_partial by assumption.
   apply memory_rswu_eq_spec_partial. exact Hd.
 Qed.
 
